@@ -245,3 +245,105 @@ def check_iterators(ctx, f, r, methods):
             if ns[0] != 'int' or not ex.prove_le(s2, ns[2], size_vid):
                 r.violate('%s|establishes|size' % short, 'Window::%s starts with a remaining count above the window size' % ctor, b.file, b.line)
     return n
+
+
+def a06_index_methods(ctx):
+    """A06: inductive invariant of HighestIndex / LowestIndex: I(m) = I(m.window) and m.index < m.window.size.
+    Base: new() establishes it.  Step: under I and a finite input, next() reaches no panic / overflow, re-establishes I and returns an age < size."""
+    f = ctx.facts('default')
+    r = RuleResult('A06', 'HighestIndex / LowestIndex: the age they keep and return is always < window length (inductive: new() establishes it, next() '
+                          'preserves it under the Window invariant and reaches no overflow or bounds check on the way)')
+    FM = 1.7976931348623157e308
+    n = 0
+    for ty in ('methods::highest_lowest_index::HighestIndex', 'methods::highest_lowest_index::LowestIndex'):
+        short = ty.rsplit('::', 1)[-1]
+        nid = '<%s as core::method::Method>::next' % ty
+        cid = '<%s as core::method::Method>::new' % ty
+        if nid not in f.bodies or cid not in f.bodies:
+            raise Broken('%s::next / new (mono) not found' % short)
+        adt = f.adts.get(ty)
+        if adt is None:
+            raise Broken('%s not found' % ty)
+        fields = [fl['name'] for fl in adt['variants'][0]['fields']]
+        if not all(x in fields for x in ('window', 'index', 'value')):
+            raise Broken('%s: expected fields window, index, value' % short)
+        # ---- step
+        ex = Exec(f)
+        ex.split_bool_casts = ('core::window::',)
+        st = St()
+        wv, size_vid, widx, s1_vid = mk_window(ex, st, True)
+        age = ex.mk_int(st, 'u8', 0, 253)
+        ex.assume_cmp(st, 'Lt', age[2], size_vid, True)
+        selfv = ('adt', ty, frozenset([short]), {short: {'window': ex.alloc(st, wv), 'index': ex.alloc(st, age), 'value': ex.alloc(st, ('float', -FM, FM, False))}})
+        sc = ex.alloc(st, selfv)
+        b = ex.body(nid)
+        inp = ex.alloc(st, ('float', -FM, FM, False))
+        key = '%s|next' % short
+        r.inst(key)
+        n += 1
+        try:
+            outs = ex.run_fn(b, st, [('ref', sc), ('ref', inp)], [nid])
+        except Budget:
+            r.violate(key + '|budget', 'analysis budget exceeded', b.file, b.line)
+            continue
+        if ex.undecided_callees:
+            raise Broken('A06: callee without summary: %s' % sorted(ex.undecided_callees)[:3])
+        if ex.undecided_loops:
+            raise Broken('A06: loop not summarised: %s' % sorted(ex.undecided_loops)[:3])
+        seen = set()
+        for ob in ex.obligations:
+            k2 = ob.key()
+            if k2 in seen:
+                continue
+            seen.add(k2)
+            r.violate('%s|%s' % (key, k2), 'under its invariant and with a finite input %s::next can still reach a %s in %s: %s [%s]' % (
+                short, ob.kind, ob.fn, ob.detail, '; '.join(ob.operands)), ob.file, ob.line)
+        if not outs:
+            r.violate(key + '|no-return', 'no returning path', b.file, b.line)
+        for s2, rv in outs:
+            me = s2.cells[sc]
+            fl = me[3][short]
+            w2 = s2.cells[fl['window']]
+            for bmsg in check_invariant(ex, s2, w2, size_vid, s1_vid, True):
+                r.violate('%s|window-invariant|%s' % (key, bmsg.split(' (')[0]), '%s::next leaves its window outside the representation invariant: %s' % (short, bmsg), b.file, b.line)
+            a2 = s2.cells[fl['index']]
+            if a2[0] != 'int' or not ex.prove_lt(s2, a2[2], size_vid):
+                r.violate(key + '|age-not-below-length', '%s::next can leave its age at %s, not provably < window length (%s): the next step may overflow / Aroon leaves [0, 1]' % (
+                    short, ex.describe(s2, a2), ex.describe(s2, s2.cells[w2[3]['Window']['size']])), b.file, b.line)
+            if rv[0] != 'int' or not ex.prove_lt(s2, rv[2], size_vid):
+                r.violate(key + '|result-not-below-length', '%s::next can return %s, not provably < window length' % (short, ex.describe(s2, rv)), b.file, b.line)
+        r.sample({'method': short + '::next', 'outcomes': len(outs), 'panic sites refuted': ex.discharged, 'post': 'age < window length, result < window length'})
+        # ---- base
+        ex = Exec(f)
+        st = St()
+        b = ex.body(cid)
+        args = [ex.top_of(st, b.locals[1]['tyj']), ('ref', ex.alloc(st, ex.top_of(st, {'t': 'float', 'n': 'f64', 's': 'f64'})))]
+        key = '%s|new' % short
+        r.inst(key)
+        n += 1
+        try:
+            outs = ex.run_fn(b, st, args, [cid])
+        except Budget:
+            outs = []
+        ok_seen = False
+        for s2, rv in outs:
+            if rv[0] == 'adt' and rv[2] is not None and 'Ok' in rv[2]:
+                me = s2.cells[rv[3]['Ok']['0']]
+                if me[0] != 'adt' or short not in me[3]:
+                    r.violate(key + '|value', 'new() does not return the method literal', b.file, b.line)
+                    continue
+                ok_seen = True
+                fl = me[3][short]
+                w2 = s2.cells[fl['window']]
+                a2 = s2.cells[fl['index']]
+                size = s2.cells[w2[3]['Window']['size']]
+                if size[0] != 'int' or ex.rng(s2, size[2])[0] < 1:
+                    r.violate(key + '|empty-window', '%s::new can build an instance over an empty window' % short, b.file, b.line)
+                elif a2[0] != 'int' or not ex.prove_lt(s2, a2[2], size[2]):
+                    r.violate(key + '|age', '%s::new does not establish age < window length' % short, b.file, b.line)
+                if size[0] == 'int' and ex.rng(s2, size[2])[1] > 254:
+                    r.violate(key + '|length-at-capacity', '%s::new accepts a length at the capacity of PeriodType: age + 1 can overflow' % short, b.file, b.line)
+        if not ok_seen:
+            r.violate(key + '|no-ok', 'new() has no Ok outcome in the abstract semantics', b.file, b.line)
+    r.floor('index methods x {new, next}', 4, n)
+    return r
